@@ -99,7 +99,8 @@ def _block(gen, ep_stub, kind=None):
             crumbs.insert(1, (b'cookie', b'mid=0'))
         pairs.extend(crumbs)
     if rng.random() < 0.05:
-        pairs.append((b'content-length', rng.choice([b'0', b'5', b'abc', b'-1', b'99999999999999999999'])))
+        pairs.append((b'content-length', rng.choice([b'0', b'5', b'abc', b'-1', b'99999999999999999999', b'9' * 4301, b'0' * 5000,
+                                                     b'+5', b'1_0', b' 5'])))
     enc = RefEncoder()
     # stateless: never use incremental indexing (rng=None => literal without indexing / static index)
     out = enc.encode(pairs)
